@@ -66,12 +66,17 @@ def cases(draw, ftypes: st.SearchStrategy[t.Any]) -> t.Any:
         v = tg.plainify(v)    # plain list / dict: convert() = from_data(into_data()) normalises exotic containers at Any positions
         key = draw(st.sampled_from(f.in_names)) if path == 'mapping' else f.name
         supplied.append([f.name, key, v])
-    return [spec, path, npos, supplied]
+    extras = draw(st.integers(0, 3)) if (path == 'mapping' and nd.allow_extra) else 0
+    return [spec, path, npos, supplied, extras]
 
 
 def render(case: t.Any) -> t.Any:
-    (spec, path, npos, supplied) = case
-    return {'class': cg.ClsNode(spec).render(), 'path': path, 'positional': npos, 'supplied': [[n, k, short(v, 60)] for (n, k, v) in supplied]}
+    (spec, path, npos, supplied) = case[:4]
+    return {'class': cg.ClsNode(spec).render(), 'path': path, 'positional': npos, 'supplied': [[n, k, short(v, 60)] for (n, k, v) in supplied],
+            'unknown_keys_added': case[4] if len(case) > 4 else 0}
+
+
+EXTRAS = [0]      # unknown keys added to mapping data (allow_extra classes ignore them; they must not change anything)
 
 
 def build(nd: cg.ClsNode, path: str, npos: int, supplied: t.List[t.List[t.Any]]) -> t.Tuple[str, t.Any]:
@@ -85,13 +90,17 @@ def build(nd: cg.ClsNode, path: str, npos: int, supplied: t.List[t.List[t.Any]])
         kw = {n: v for (n, _, v) in supplied[npos:]}
         return outcome(lambda: Cls(*args, **kw))
     if path == 'mapping':
-        return outcome(lambda: Cls.from_data({k: v for (_, k, v) in supplied}))
+        data = {k: v for (_, k, v) in supplied}
+        for i in range(EXTRAS[0]):
+            data[f"zz_unknown_{i}"] = i
+        return outcome(lambda: Cls.from_data(data))
     return outcome(lambda: Cls.from_data(list(vals)))
 
 
 def check(case: t.Any, ctx: Ctx) -> None:
     import pane
-    (spec, path, npos, supplied) = case
+    (spec, path, npos, supplied) = case[:4]
+    EXTRAS[0] = case[4] if len(case) > 4 else 0
     nd = cg.ClsNode(spec)
     Cls = nd.pytype()
     names = [n for (n, _, _) in supplied]
